@@ -272,3 +272,15 @@ void h_free_step(void) {
     if (have_w && sba_pidx(w) == pai) CANARY("free: witness in the same page");
     if (have_w && sba_pidx(w) != pai) CANARY("free: witness in another page");
 }
+
+void h_dbg_state(void) {
+    struct sba_bin *bin = any_bin_state();
+    CHECK(sba_bin_inv(&S, bin, CLS), "dbg");
+    CANARY("dbg: state exists");
+}
+void h_dbg_alloc(void) {
+    struct sba_bin *bin = any_bin_state();
+    uint8_t *r = s_sba_alloc_from_bin(bin);
+    CHECK(r != NULL, "dbg");
+    CANARY("dbg: returned");
+}
